@@ -142,14 +142,16 @@ where
     L: Flat + Length,
 {
     unsafe fn emplace_unchecked(self, bytes: &mut [u8]) -> Result<&mut FlatVec<T, L>, Error> {
-        unsafe { <Empty as Emplacer<FlatVec<T, L>>>::emplace_unchecked(Empty, bytes) }?;
-        let vec = unsafe { FlatVec::<T, L>::from_mut_bytes_unchecked(bytes) };
-        if vec.capacity() < N {
+        // Check the capacity (it only depends on the slice length) before touching the contents,
+        // so that a failed assignment leaves the previous value intact.
+        if unsafe { FlatVec::<T, L>::from_mut_bytes_unchecked(bytes) }.capacity() < N {
             return Err(Error {
                 kind: ErrorKind::InsufficientSize,
                 pos: 0,
             });
         }
+        unsafe { <Empty as Emplacer<FlatVec<T, L>>>::emplace_unchecked(Empty, bytes) }?;
+        let vec = unsafe { FlatVec::<T, L>::from_mut_bytes_unchecked(bytes) };
         vec.extend_until_full(self.0);
         Ok(vec)
     }
@@ -161,6 +163,13 @@ where
     L: Flat + Length,
 {
     unsafe fn emplace_unchecked(self, bytes: &mut [u8]) -> Result<&mut FlatVec<T, L>, Error> {
+        // If the iterator already knows that it is too long, fail before touching the contents.
+        if unsafe { FlatVec::<T, L>::from_mut_bytes_unchecked(bytes) }.capacity() < self.0.size_hint().0 {
+            return Err(Error {
+                kind: ErrorKind::InsufficientSize,
+                pos: 0,
+            });
+        }
         unsafe { <Empty as Emplacer<FlatVec<T, L>>>::emplace_unchecked(Empty, bytes) }?;
         let vec = unsafe { FlatVec::<T, L>::from_mut_bytes_unchecked(bytes) };
         for x in self.0 {
